@@ -224,6 +224,19 @@ def gen_cases(tier, seed):
         cs.append(build(r, "p%d" % i, tier, kinds[i % len(kinds)]))
     for j in range(2 if tier == "quick" else 12):
         cs += all_splits(r, "sp%d" % j)
+    # the peer's first bytes on a stream that is still being opened: open_stream registers the inbound queue before it
+    # writes the SYN, so data the peer sends the moment it sees the SYN -- while the caller's SYN write is still
+    # pending or has not even started -- is queued and read afterwards. Scheduled driver of the write-path package: the
+    # data frames are fed at every position among the steps of the open (seed C01-6); what arrives before the queue
+    # exists is dropped in the model too (the peer cannot know the id yet), what arrives later must be read
+    from .conc_common import render, drain_suffix
+    for p1 in range(0, 10):
+        for p2 in sorted({p1, min(9, p1 + 1), 9}):
+            nread = (1 if p1 >= 2 else 0) + (1 if p2 >= 2 else 0)
+            progs = [[], ["O", "B0"] + ["R"] * nread, ["F:psh:1"], ["F:psh:1"]]
+            sched = [1] * p1 + [2] + [1] * (p2 - p1) + [3] + [1] * (12 - p2) + [1, 2, 3] * 3 + drain_suffix(4, 4)
+            cs.append(Case("od%d_%d" % (p1, p2), "conc", render("plain", progs, sched), "own-data-during-open", True,
+                           {"expect_t1": ",".join(["ok", "ok"] + ["data"] * nread)}))
     # "when it ends it has seen all of it" end to end: a slow TCP target behind the server handler, the session ends
     # while the upload is still queued (real time; no model side)
     for i in range(1 if tier == "quick" else 4):
@@ -233,6 +246,17 @@ def gen_cases(tier, seed):
 
 
 def oracle(c, ir):
+    if c.drv == "conc":
+        from .conc_common import parse_out
+        o = parse_out(ir)
+        if o is None:
+            return "unparsable implementation output: " + ir[:200]
+        want = c.meta["expect_t1"]
+        pc, res = o["tasks"].get(1, ("?", []))
+        if pc != "done" or ",".join(res) != want:
+            return ("the peer's data frames for the stream arrived while open_stream was still in progress (after the inbound queue "
+                    "had been registered): the reader got %s (state %s), expected %s: bytes the peer sent were lost" % (res, pc, want))
+        return None
     if c.drv == "lo":
         from . import c08
         return c08.lo_oracle(c, ir)
